@@ -22,12 +22,12 @@ from .shared import CROP
 
 LEVEL = "other"
 CLAIM = {
-    "text": ("The generator is abstractly interpreted over scheduler x mode x batch-state (24 configurations, exhaustive; batch states: explicit ids, fresh crop, partly grown with a non-contiguous missing set, partly grown with the leading batches missing -- comparisons over the crop's batch state are decided on these representative states by the analyser's own evaluator): per configuration the concatenated template, the definite key set of the format dictionary and "
+    "text": ("The generator is abstractly interpreted over scheduler x mode x batch-state (30 configurations, exhaustive; batch states: explicit ids, fresh crop, partly grown with a non-contiguous missing set, partly grown with the leading batches missing, exactly one batch missing -- comparisons over the crop's batch state are decided on these representative states by the analyser's own evaluator): per configuration the concatenated template, the definite key set of the format dictionary and "
              "a representative literal per field are derived. Decided: (R2) every {field} is a definite key; (R3) the embedded program between the here-doc markers is valid Python for every configuration, also after the PBS size-1 rewrite; "
              "(R4) index mapping -- in array mode the id expression of the embedded grow(...) is evaluated for every task index of the header range and the multiset of grown ids must equal the intended ids (all batches, the explicit ids, or the missing ones), no index out of range; single mode calls crop.grow(batch_ids) with the explicit ids or the dynamic "
              "crop.missing_results(); task variable, directive prefix and array flag match the scheduler table; (R5) the embedded program's imports and calls resolve against the current signatures; (R6) shebang first, here-doc opener and a "
              "terminator that cannot occur inside the program (thorough: bash -n on every script); (R7) the console entry point resolves and reaches Crop.grow_missing with kwargs the enumerator accepts; (R8) missing_results / progress listings never count "
-             "a leftover temporary; (R9) the pooled grow() used by array scripts keeps the batch order. Not decided: scheduler behaviour, actually running the jobs."),
+             "a leftover temporary; (R9) the pooled grow() used by array scripts keeps the batch order. (R10) for every combination of omitted / given num_procs, num_threads, num_workers no arithmetic is applied to an omitted (None) option, i.e. a script is produced. Not decided: scheduler behaviour, actually running the jobs."),
     "note": "Trusted base: str.format semantics; the scheduler table (sge: #$ -t / SGE_TASK_ID, pbs: #PBS -J / PBS_ARRAY_INDEX, slurm: #SBATCH --array= / SLURM_ARRAY_TASK_ID); bash here-doc semantics.",
     "technique": "static analysis: abstract interpretation with string-constant folding and definite-key tracking, exhaustive enumeration of the finite configuration space, parsing of the assembled embedded program (ast.parse / bash -n are parsers, nothing is run)",
 }
@@ -50,6 +50,7 @@ STATES = {
     "fresh crop": ("NONE", 0, tuple(range(1, NUM_BATCHES + 1))),
     "partly grown": ("NONE", 4, MISSING),
     "partly grown, leading batches missing": ("NONE", 5, (1, 2, 3)),
+    "one batch missing": ("NONE", 7, (4,)),
 }
 
 
@@ -155,7 +156,13 @@ class TFlow(InterFlow):
             r = self.concrete_test(e, env)
         return r
 
-    def concrete_test(self, e, env):
+    def test(self, e, env):
+        r = super().test(e, env)
+        if r is None and getattr(self.inter, "state", None) and not isinstance(e, ast.Compare):
+            r = self.concrete_test(e, env, truthiness=True)
+        return r
+
+    def concrete_test(self, e, env, truthiness=False):
         """A comparison over the crop's batch state (which ids are missing, how
         many batches / results there are) is decided on the representative
         state of the configuration being enumerated, by the analyser's own
@@ -188,6 +195,9 @@ class TFlow(InterFlow):
         if isinstance(v, bool):
             self.inter.decided_on_state.append(norm(e))
             return v
+        if truthiness and isinstance(v, (tuple, int, str, range)):
+            self.inter.decided_on_state.append(norm(e))
+            return bool(v)
         return None
 
 
@@ -233,6 +243,8 @@ def representative(key, v, state):
                 "header_options": "", "debugging": False, "pe": "smp"}
     if key in defaults:
         return defaults[key]
+    if txt is not None:
+        return ("defer", txt)
     raise AnalysisError("no representative for format field %r (value %r)" % (key, v))
 
 
@@ -273,6 +285,21 @@ def build_text(item, ids_override=None):
     for k, v in list(rep.items()):
         if v == "<len>":
             rep[k] = len(rep["batch_ids"])
+    # values derived from the batch ids (opts['batch_ids'][0], len(...) - 1, ...): evaluated on the representative ids
+    from ..util import IntEval
+    for k, v in list(rep.items()):
+        if isinstance(v, tuple) and len(v) == 2 and v[0] == "defer":
+            ids = rep.get("batch_ids")
+            sym = {"opts['batch_ids']": tuple(ids) if not isinstance(ids, str) else ids, "crop.num_batches": NUM_BATCHES, "batch_ids": tuple(ids) if not isinstance(ids, str) else ids}
+
+            def on_call(c, ev, st_):
+                if norm(c.func) in ("len", "min", "max", "tuple") and not c.keywords:
+                    return {"len": len, "min": min, "max": max, "tuple": tuple}[norm(c.func)](*[ev.ev(a, st_) for a in c.args])
+                return NotImplemented
+            try:
+                rep[k] = IntEval(sym, on_call).ev(ast.parse(v[1], mode="eval").body, {})
+            except (AnalysisError, IndexError, TypeError, SyntaxError) as ex:
+                raise AnalysisError("no representative for format field %r (`%s`): %s" % (k, v[1], ex))
     return fields, rep
 
 
